@@ -756,6 +756,8 @@ def _shrinks(k, sx, val, own, depth=0):
             return "ok", "target-preserving filter/map of itself (%s)" % kf.text()
         if keeps_target and isinstance(s, tuple) and s != own and depth < 3 and _shrinks(k, sx, s, own, depth + 1)[0] == "ok":
             return "ok", "target-preserving map of a sub-list of itself (%s)" % kf.text()
+        if s == own and mentions(kf.term, lambda x: x[0] == "idx" and x[1] == SELF_NEXT and not is_const(x[2])):
+            return "unknown", ""          # entries looked up by position in the old list (`self.next_states[i]` for the kept positions i)
         if s == own:
             return "bad", "entries are rewritten as `%s` (the successor index is not kept)" % show(kf.term)
         if s[0] == "attr" and s[1] == own[1] and s[2] != "next_states":
